@@ -410,6 +410,63 @@ def _task_crypto(spec):
                                                 "detail": {"len": n, "openssl": dres[0], "botan": dres[1]}, "spec": spec, "history": [], "action": None})
                         elif dres[0][2] is not None and dres[0][2] != msg(n).hex():
                             out["viol"].append({"signature": "C20|crypto|%s|decrypt|both-backends-return-wrong-plaintext" % name, "detail": {"len": n}, "spec": spec, "history": [], "action": None})
+                # the two-call convention (length query first) and the multi-part calls: return codes and the CONCATENATED output must agree; how the output is
+                # spread over the Update/Final calls is compared too (signature of its own)
+                for n, parts in ((2 * B, (B, B)), (2 * B, (1, 2 * B - 1)), (2 * B, (B + 1, B - 1)), (3 * B, (B, B, B)), (B + 5, (5, B))):
+                    if mname.split("-", 1)[1] in ("ecb", "cbc") and n % B:
+                        continue
+                    data = msg(n)
+                    for direction in ("Encrypt", "Decrypt"):
+                        if direction == "Decrypt":
+                            r0 = lanes[0][0].p.batch(["C_EncryptInit s=%d mech=%s k=%d" % (lanes[0][1].s, ms, hs[0]), "C_Encrypt s=%d in=x%s out=b%d" % (lanes[0][1].s, data.hex(), n + 64)])
+                            if r0[1]["rv"] != 0:
+                                continue
+                            data_in = bytes.fromhex(r0[1]["out"])[:r0[1]["len"]]
+                            cut = list(parts[:-1]) + [len(data_in) - sum(parts[:-1])]
+                        else:
+                            data_in, cut = data, list(parts)
+                        res, qres = [], []
+                        for (ctx, env), h in zip(lanes, hs):
+                            lines = ["C_%sInit s=%d mech=%s k=%d" % (direction, env.s, ms, h)]
+                            off = 0
+                            for c_ in cut:
+                                lines.append("C_%sUpdate s=%d in=x%s out=b%d" % (direction, env.s, data_in[off:off + c_].hex(), n + 64))
+                                off += c_
+                            lines.append("C_%sFinal s=%d out=b%d" % (direction, env.s, n + 64))
+                            rs = ctx.p.batch(lines)
+                            outs_ = [bytes.fromhex(r.get("out", ""))[:r.get("len", 0)] if r["rv"] == 0 else b"" for r in rs[1:]]
+                            res.append((tuple(rvn(r) for r in rs), b"".join(outs_).hex(), tuple(len(o) for o in outs_)))
+                            q = ctx.p.batch(["C_%sInit s=%d mech=%s k=%d" % (direction, env.s, ms, h), "C_%s s=%d in=x%s out=n0" % (direction, env.s, data_in.hex()),
+                                             "C_%s s=%d in=x%s out=b%d" % (direction, env.s, data_in.hex(), n + 64)])
+                            qres.append((tuple(rvn(r) for r in q), q[1].get("len"), q[2].get("out") if q[2]["rv"] == 0 else None))
+                        out["programs"] += 2
+                        out["steps"] += 2 * (len(cut) + 2) + 6
+                        if res[0][:2] != res[1][:2]:
+                            out["viol"].append({"signature": "C20|crypto|openssl-vs-botan|%s|multi-part-%s|%s" % (name, direction.lower(), "outputs-differ" if res[0][0] == res[1][0] else "return-codes-differ"),
+                                                "detail": {"len": n, "parts": cut, "openssl": res[0], "botan": res[1]}, "spec": spec, "history": [], "action": None})
+                        elif res[0][2] != res[1][2]:
+                            out["viol"].append({"signature": "C20|crypto|openssl-vs-botan|multi-part-%s|same-total-output-but-spread-differently-over-the-calls" % direction.lower(),
+                                                "detail": {"mechanism": name, "len": n, "parts": cut, "openssl_lengths": res[0][2], "botan_lengths": res[1][2]}, "spec": spec, "history": [], "action": None})
+                        if qres[0] != qres[1]:
+                            out["viol"].append({"signature": "C20|crypto|openssl-vs-botan|%s|length-query-then-%s|%s" % (name, direction.lower(), "outputs-differ" if qres[0][0] == qres[1][0] else "return-codes-differ"),
+                                                "detail": {"len": n, "openssl": qres[0], "botan": qres[1]}, "spec": spec, "history": [], "action": None})
+                if mname == "aes-ctr":
+                    # a narrow counter (8 bits, starting at 0xf0: 16 blocks = 256 bytes left before it wraps): the budget must be accounted identically, with
+                    # and without a preceding length query
+                    msn = mech(C.CKM_AES_CTR, ctr_params(8, bytes(15) + b"\xf0"))
+                    for n in (16, 128, 144, 240, 256, 257, 272):
+                        for query in (False, True):
+                            res = []
+                            for (ctx, env), h in zip(lanes, hs):
+                                lines = ["C_EncryptInit s=%d mech=%s k=%d" % (env.s, msn, h)] + (["C_Encrypt s=%d in=x%s out=n0" % (env.s, msg(n).hex())] if query else []) + \
+                                        ["C_Encrypt s=%d in=x%s out=b%d" % (env.s, msg(n).hex(), n + 64)]
+                                rs = ctx.p.batch(lines)
+                                res.append((tuple(rvn(r) for r in rs), rs[-1].get("out") if rs[-1]["rv"] == 0 else None))
+                            out["programs"] += 1
+                            out["steps"] += 3
+                            if res[0] != res[1]:
+                                out["viol"].append({"signature": "C20|crypto|openssl-vs-botan|%s|narrow-counter|%s|%s" % (name, "after-length-query" if query else "direct", "outputs-differ" if res[0][0] == res[1][0] else "return-codes-differ"),
+                                                    "detail": {"len": n, "openssl": res[0], "botan": res[1]}, "spec": spec, "history": [], "action": None})
             elif name.startswith("mac:") or name.startswith("digest:"):
                 _, mname = name.split(":")
                 if name.startswith("mac:"):
